@@ -188,10 +188,10 @@ func checkSharedObjects(a, b map[string]*ast.Definition) error {
 		if isImplementsNodeInterface(va) || isImplementsNodeInterface(vb) {
 			continue
 		}
-		if _, err := mergeCustomObjectFields(a, b, va, vb); err != nil {
+		if _, err := mergeCustomObjectFields(a, b, va, vb, false); err != nil {
 			return err
 		}
-		if _, err := mergeCustomObjectFields(b, a, vb, va); err != nil {
+		if _, err := mergeCustomObjectFields(b, a, vb, va, false); err != nil {
 			return err
 		}
 	}
@@ -280,12 +280,12 @@ func mergeCustomObjects(aTypes, bTypes map[string]*ast.Definition, a, b *ast.Def
 		Types:       lo.Uniq(append(a.Types, b.Types...)),
 	}
 
-	mergedFields, err := mergeCustomObjectFields(aTypes, bTypes, a, b)
+	mergedFields, err := mergeCustomObjectFields(aTypes, bTypes, a, b, true)
 	if err != nil {
 		return nil, err
 	}
 	// check if can merge in another order
-	if _, err := mergeCustomObjectFields(bTypes, aTypes, b, a); err != nil {
+	if _, err := mergeCustomObjectFields(bTypes, aTypes, b, a, true); err != nil {
 		return nil, err
 	}
 
@@ -293,7 +293,10 @@ func mergeCustomObjects(aTypes, bTypes map[string]*ast.Definition, a, b *ast.Def
 	return result, nil
 }
 
-func mergeCustomObjectFields(aTypes, bTypes map[string]*ast.Definition, a, b *ast.Definition) (ast.FieldList, error) {
+// mergeCustomObjectFields merges the fields of b into the fields of a. A partial overlap is a conflict
+// between two service declarations; against the accumulated type (allowPartial) it is expected,
+// f.e. {g} + {f} = {g, f} met by another {g}, and the declarations were already compared one by one
+func mergeCustomObjectFields(aTypes, bTypes map[string]*ast.Definition, a, b *ast.Definition, allowPartial bool) (ast.FieldList, error) {
 	var result ast.FieldList
 	for _, f := range a.Fields {
 		if common.IsQueryObjectName(a.Name) && isNodeField(f) {
@@ -322,7 +325,9 @@ func mergeCustomObjectFields(aTypes, bTypes map[string]*ast.Definition, a, b *as
 		if rf != nil && !isSameFieldSignature(rf, f) {
 			return nil, fmt.Errorf("overlapping fields with different signatures %s : %s", a.Name, f.Name)
 		}
-		result = append(result, f)
+		if rf == nil {
+			result = append(result, f)
+		}
 	}
 
 	var isSomeOverlappingg bool = false
@@ -346,7 +351,7 @@ func mergeCustomObjectFields(aTypes, bTypes map[string]*ast.Definition, a, b *as
 	}
 
 	// not complete copy
-	if isSomeOverlappingg && !isAllOverlappingg {
+	if isSomeOverlappingg && !isAllOverlappingg && !allowPartial {
 		return nil, fmt.Errorf("overlapping fields, not complete copy %s : %s", a.Name, strings.Join(overlappingFields, ","))
 	}
 
